@@ -55,3 +55,24 @@ Lemma src_observation n s : zlen (s_visited_mask s) = n ->
   (o_coordinates o, o_position o, o_trajectory o, o_action_mask o)
   = (s_coordinates s, s_position s, s_trajectory s, map (M.legal_b (conv s)) (zrange n)).
 Proof. intros L. cbv zeta. rewrite observe_src. exact (C12_observation n (conv s) L). Qed.
+
+(* ---- whole episodes of the translated step (state part translated, the model's reward function): up to and including the first LAST ---- *)
+Fixpoint run_src (rnd : Z -> Z) (sparse : bool) (n pen : Z) (dist : Z -> Z -> Z) (s : State) (acts : list Z) : list (State * tstep) :=
+  match acts with
+  | [] => []
+  | a :: r => let p := step n (reward_model rnd sparse n pen dist) s a in
+              p :: (if st (snd p) =? LAST then [] else run_src rnd sparse n pen dist (fst p) r)
+  end.
+Definition cp (p : State * tstep) : M.state * tstep := (conv (fst p), snd p).
+Lemma run_src_eq rnd sparse n pen dist acts : forall s, map cp (run_src rnd sparse n pen dist s acts) = run n pen dist rnd sparse (conv s) acts.
+Proof.
+  induction acts as [|a r IH]; intros s; cbn [run_src run map]; [reflexivity|].
+  destruct (step_src rnd sparse n pen dist s a) as [E1 E2]. unfold cp at 1. rewrite E1, E2, <- surjective_pairing. f_equal.
+  destruct (st (snd (M.step_r rnd sparse n pen dist (conv s) a)) =? LAST); [reflexivity|]. rewrite IH, E1. reflexivity.
+Qed.
+(* C11: an episode of the translated step lasts at most max(1, number of unvisited cities) steps *)
+Lemma src_horizon n pen dist rnd sparse acts s : 0 <= n -> M.Inv n (conv s) -> Forall (fun a => 0 <= a < n) acts ->
+  Z.of_nat (length (run_src rnd sparse n pen dist s acts)) <= Z.max 1 (n - M.nvis (conv s)).
+Proof.
+  intros Hn I F. rewrite <- (map_length cp), run_src_eq. exact (C11_horizon n pen dist Hn rnd sparse acts (conv s) I F).
+Qed.
